@@ -27,6 +27,7 @@ RULE = (
     "wildcards (shared for equal sub-trees) x region (whole module or a run of top-level statements) x goal (pattern itself | "
     "wildcards as arguments of a wrapping call, permuted); non-trivial = >= 2 instances or a wildcard bound to a non-atomic expression; "
     "distinct by (text hash, pattern, region)"
+    "; statement patterns are also run with a goal that differs from the pattern (reference: windows chosen left to right without overlap); a typed-wildcard probe (type=..., unsure) with ground-truth types; crafted modules for optional AST fields, constants of different types and runs of self-similar statements"
 )
 ASSUMPTIONS = [
     "goals put the bound code into argument positions of a call, where no precedence issue can arise (the verbatim-insertion defect is a recorded finding)",
